@@ -985,3 +985,114 @@ Theorem C03_histm_example_gc :
 Proof. exact exm_gc_counts. Qed.
 Print Assumptions C03_histm_example_gc.
 
+
+(** ** TDD (package TDDx): the structural invariant for ternary nodes.  [td_ok_b] (wf_b + kind TDD + exactly the
+    terminals False / Unknown / True) and the checker spelled out for ternary nodes [td_wf3_b] (DD/TddAudit.v:
+    exactly the children (true, unknown, false), untagged, stored, strictly below, NOT all three equal = the
+    rule of TDDRules::reduce, stored level = listed level, per-level uniqueness) are the same Boolean function
+    of the snapshot and decide TdOK; the invariant is preserved by every call of the TDD manager state machine
+    Mgr/TddHist.v (constants, variables, not, 8 connectives, ite, cofactors, clone / drop, gc, add_vars), hence
+    holds after ANY history from a fresh manager. *)
+From Coq Require Import List NArith PArith Bool Arith FMapPositive.
+From OxiVerif Require Import DD.Table DD.TableExtra DD.TableProofs DD.Build DD.BuildProofs DD.Apply DD.ApplyProofs DD.ConfigApply
+  DD.Tdd DD.ApplyTdd DD.ApplyTddBase DD.ApplyTddProofs DD.ApplyTddTop DD.TddAudit DD.TddAuditProofs
+  Mgr.History Mgr.OomGc Mgr.TddHist Mgr.TddHistProofs Mgr.TddHistSim Mgr.TddHistExamples.
+Import ListNotations.
+
+Theorem C03_tdd_ok_b_spec : forall s, td_ok_b s = true <-> TdOK s.
+Proof. exact td_ok_b_spec. Qed.
+Print Assumptions C03_tdd_ok_b_spec.
+
+(* the two checkers agree on EVERY snapshot (as booleans) *)
+Theorem C03_tdd_wf3_b_ok_b : forall s, td_wf3_b s = td_ok_b s.
+Proof. exact td_wf3_b_ok_b. Qed.
+Print Assumptions C03_tdd_wf3_b_ok_b.
+
+Theorem C03_tdd_wf3_b_spec : forall s, td_wf3_b s = true <-> TdOK s.
+Proof. exact td_wf3_b_spec. Qed.
+Print Assumptions C03_tdd_wf3_b_spec.
+
+(* TdOK implies the hypothesis wf_full_b of the generic canonicity / totality / reference-count theorems *)
+Theorem C03_tdd_ok_wf_full : forall s, td_ok_b s = true -> wf_full_b s = true.
+Proof. exact td_ok_wf_full. Qed.
+Print Assumptions C03_tdd_ok_wf_full.
+
+(* every stored node: exactly three untagged children that exist, lie strictly below and are NOT all equal *)
+Theorem C03_tdd_node_shape : forall s id nd, TdOK s -> find_node s id = Some nd ->
+  exists t u e, nchildren nd = [E t; E u; E e] /\ ~ (t = u /\ u = e) /\
+    ref_ok s t /\ ref_ok s u /\ ref_ok s e /\
+    nlevel nd < rlevel s t /\ nlevel nd < rlevel s u /\ nlevel nd < rlevel s e /\
+    nstored nd = nlevel nd /\ nlevel nd < nlevels s.
+Proof. exact td_node3_shape. Qed.
+Print Assumptions C03_tdd_node_shape.
+
+(* no duplicates: (level, children) determines the node *)
+Theorem C03_tdd_unique_table : forall s id1 id2 n1 n2, TdOK s ->
+  find_node s id1 = Some n1 -> find_node s id2 = Some n2 ->
+  nlevel n1 = nlevel n2 -> nchildren n1 = nchildren n2 -> id1 = id2.
+Proof. exact td_unique_table. Qed.
+Print Assumptions C03_tdd_unique_table.
+
+(* a fresh manager satisfies the invariant *)
+Theorem C03_tdd_hist_init_inv :
+  forall (C : Type) (cget : C -> N -> list ref -> option ref) (cempty : C),
+  (forall k a, cget cempty k a = None) -> forall n, TInv C cget (tinit C cempty n).
+Proof. exact tinit_inv. Qed.
+Print Assumptions C03_tdd_hist_init_inv.
+
+(* every well-formed call: defined, invariant again, frame, post-condition *)
+Theorem C03_tdd_hist_step :
+  forall (gt : ref -> ref -> bool) (C : Type) (cget : C -> N -> list ref -> option ref)
+         (cadd : C -> N -> list ref -> ref -> C) (cempty : C),
+  lossy cget cadd -> (forall k a, cget cempty k a = None) ->
+  forall (st : tstate C) o, TInv C cget st -> top_pre C st o ->
+  exists st', tstep gt C cget cadd cempty st o = Some st' /\ TInv C cget st' /\
+              tframe C st o st' /\ tpost C st o st'.
+Proof. exact tstep_ok. Qed.
+Print Assumptions C03_tdd_hist_step.
+
+Theorem C03_tdd_hist_run_ok :
+  forall (gt : ref -> ref -> bool) (C : Type) (cget : C -> N -> list ref -> option ref)
+         (cadd : C -> N -> list ref -> ref -> C) (cempty : C),
+  lossy cget cadd -> (forall k a, cget cempty k a = None) ->
+  forall ops (st : tstate C), TInv C cget st -> tops_pre_b gt C cget cadd cempty st ops = true ->
+  exists st', trun gt C cget cadd cempty st ops = Some st' /\ TInv C cget st'.
+Proof. exact trun_ok. Qed.
+Print Assumptions C03_tdd_hist_run_ok.
+
+(* a run stops only at a request whose precondition fails (empty operand slot, unknown variable) *)
+Theorem C03_tdd_hist_never_stuck :
+  forall (gt : ref -> ref -> bool) (C : Type) (cget : C -> N -> list ref -> option ref)
+         (cadd : C -> N -> list ref -> ref -> C) (cempty : C),
+  lossy cget cadd -> (forall k a, cget cempty k a = None) ->
+  forall ops (st : tstate C), TInv C cget st -> trun gt C cget cadd cempty st ops = None ->
+  exists pre o post st1, ops = pre ++ o :: post /\ trun gt C cget cadd cempty st pre = Some st1 /\
+                         TInv C cget st1 /\ top_pre_b C st1 o = false.
+Proof. exact trun_never_stuck. Qed.
+Print Assumptions C03_tdd_hist_never_stuck.
+
+(* after ANY history the executable checkers accept the table *)
+Theorem C03_tdd_hist_wf :
+  forall (gt : ref -> ref -> bool) (C : Type) (cget : C -> N -> list ref -> option ref)
+         (cadd : C -> N -> list ref -> ref -> C) (cempty : C),
+  lossy cget cadd -> (forall k a, cget cempty k a = None) ->
+  forall n st, treach gt C cget cadd cempty n st ->
+  td_ok_b (t_s C st) = true /\ td_wf3_b (t_s C st) = true /\ wf_full_b (t_s C st) = true.
+Proof. exact thist_ok_b. Qed.
+Print Assumptions C03_tdd_hist_wf.
+
+(* non-vacuity: a hand-written table is accepted; a node with three equal children, a missing terminal and a
+   child that is not below its parent are rejected; the final tables of a 17-call history (every constructor,
+   two configurations) are accepted *)
+Theorem C03_tdd_example :
+  (td_audit_b ex_t3 = true /\ td_ok_b ex_t3 = true /\ rc_exact_b ex_t3 [] = true) /\
+  (td_rc_b (mkSnap KTdd (ex_t3_nodes 1) (s_terms ex_t3) [0; 1] [0; 1] (s_handles ex_t3)) = false /\
+   td_wf3_b (mkSnap KTdd (PositiveMap.add 4%positive (mkNode 0 [E (RN 1); E (RN 1); E (RN 1)] 0 0) (ex_t3_nodes 0))
+                    (s_terms ex_t3) [0; 1] [0; 1] (s_handles ex_t3)) = false /\
+   td_wf3_b (mkSnap KTdd (ex_t3_nodes 0) [(0, 0); (2, 2)]%N [0; 1] [0; 1] (s_handles ex_t3)) = false /\
+   td_wf3_b (mkSnap KTdd (PositiveMap.add 4%positive (mkNode 1 [E (RN 2); E (RT 1); E (RT 1)] 1 0) (ex_t3_nodes 0))
+                    (s_terms ex_t3) [0; 1] [0; 1] (s_handles ex_t3)) = false) /\
+  (td_wf3_b (t_s _ ex_stA) = true /\ td_wf3_b (t_s _ ex_stB) = true /\
+   nlevels (t_s _ ex_stA) = 3 /\ 4 <= length (PositiveMap.elements (s_nodes (t_s _ ex_stA)))).
+Proof. exact (conj ex_t3_audit (conj ex_t3_rejects ex_final_ok)). Qed.
+Print Assumptions C03_tdd_example.
